@@ -1,6 +1,7 @@
 (* Runs coq/Lazy.v (extracted).
    B id:r1,r2 id: ...            -> "FWD id r.." / "REV id r.." / "DEPS id d.." lines then END
-   V x ent attr ; t:e t:e ... ; id:type:ent.attr=r1,r2/ent.attr=... ...   -> INV y1 y2 ... *)
+   V x ent attr ; t:e t:e ... ; id:type:ent.attr=r1,r2/ent.attr=... ...   -> INV y1 y2 ...
+   S <hex>   coq/P21Scan.v scan_section on the text after "DATA;" *)
 open Conv
 open Lazy
 
@@ -46,6 +47,16 @@ let () =
            let (_, rev) = build (Stdlib.List.map (fun i -> (i.r_id, all_refs i)) pop) in
            Printf.printf "INV %s\n" (show (resolve_inverse isa pop rev x ent attr))
          | _ -> print_endline "INV ?")
+      | ["S"; hex] ->
+        (* S <hex of the text after DATA;>  ->  "I id KW r1 r2.." per instance, then "END abort=0|1 endsec=0|1 stop=<bytes left>" *)
+        let n = String.length hex / 2 in
+        let data = String.init n (fun i -> Char.chr (int_of_string ("0x" ^ String.sub hex (2 * i) 2))) in
+        let ((insts, ab), rest) = P21Scan.scan_section (bytes_of_string data) in
+        let nstr v = string_of_z (match v with BinNums.N0 -> BinNums.Z0 | BinNums.Npos p -> BinNums.Zpos p) in
+        Stdlib.List.iter (fun ((id, kw), refs) ->
+            Printf.printf "I %s %s %s\n" (nstr id) (let k = string_of_bytes kw in if k = "" then "-" else k)
+              (String.concat " " (Stdlib.List.map nstr refs))) insts;
+        Printf.printf "END abort=%d endsec=%d stop=%d\n" (if ab then 1 else 0) (if P21Scan.at_endsec rest then 1 else 0) (Stdlib.List.length rest)
       | _ -> ()
     done
   with End_of_file -> ()
